@@ -37,5 +37,5 @@ if [ -n "$dest" ]; then
   patch -p1 -s --no-backup-if-mismatch < $d/patch.diff
 fi
 mkdir -p "$scratch/.verif"; cp /verif/known_findings.json "$scratch/.verif/"
-/verif/bin/pverif check "$ids" --repo "$scratch" --verif "$scratch/.verif" 2>&1 | grep -E '^(VIOLATED|UNDECIDED|KNOWN-FINDING)' | sed "s#$scratch/##g" | cut -c1-${MUTEST_WIDTH:-330}
+"${PVERIF_BIN:-/verif/bin/pverif}" check "$ids" --repo "$scratch" --verif "$scratch/.verif" 2>&1 | grep -E '^(VIOLATED|UNDECIDED|KNOWN-FINDING)' | sed "s#$scratch/##g" | cut -c1-${MUTEST_WIDTH:-330}
 echo "--- end"
